@@ -109,4 +109,10 @@ PROPS = {
         assumptions=["RequestedNssaiToModels is evaluated on IE values with Len = len(Buffer) (what the message decoder produces: C03 decode_wf); a hand-built IE with Len > len(Buffer) panics in Go and in the model alike and is outside the property",
                      "a Go call that does not return within 5 s is reported as hang"],
     ),
+    "C12": dict(
+        level="proof", modules=["NasVerif.Props.C12"], parts=[],
+        streams=[("conv12", 300, 1500)], oracle="C12",
+        trusted_base=TB_COMMON[:1] + TB_CONV + ["Spec/Identity.lean: octet layouts of TS 24.501 9.11.3.4 / TS 24.008 10.5.1.13 and text formats of TS 23.003 (transcriptions); the Go-side oracle holds a second, independent reading of the same figures"],
+        rule="PLMNs both ways (quick: boundary + 2500 random; thorough: all 10^5 + 10^6), AMF ids (field boundaries, random; thorough: every set id x pointer, all 2^16 low octets) both ways incl. upper-case and invalid texts, GUTI text->wire->text and wire->text->wire (valid, one-character corruptions, length mutations, high set ids), SUCI (every routing-indicator length, null/non-null schemes, every last scheme-output octet), IMEI/IMEISV (15/16 and other digit counts), 5G-S-TMSI, MobileIdentity5GS getters on the same contents; non-trivial = distinct op answered with a value",
+    ),
 }
